@@ -1,17 +1,19 @@
 SPECIFICATION Spec
 CONSTANTS
   VisitTypes = {"random", "dataframe", "other"}
-  PNs = {"pos", "zero", "neg", "str", "none", "true", "float"}
+  PNs = {"pos", "one", "zero", "neg", "str", "none", "true", "float"}
   Stds = {"ok", "neg"}
   DMeans = {"pos", "zero", "neg"}
-  DStds = {"pos", "zero"}
+  DStds = {"pos", "zero", "large"}
   Spacings = {"absent", "one", "tenth", "tiny", "neg", "str"}
+  FollowUps = {"pos", "zero", "long"}
   FeatKinds = {"ok", "empty", "nonstr", "blank", "notlist"}
   Missing = {TRUE, FALSE}
   Cols = {"ok", "noid", "notime"}
   NullTimes = {TRUE, FALSE}
   IdKinds = {"str", "int"}
+  TabShapes = {"plain", "unsorted_repeat", "late"}
   SrcDims = {1, 0}
   MaxDev = 2
-  AsBuilt = FALSE
+  Deviations = {}
 INVARIANT Honoured
